@@ -35,7 +35,7 @@ inductive FOp
   | api (op : Op)
   | monRecheck (g b : Nat)
   | monScopeRecheck (s b : Nat)
-  | joinClean (actors : List Nat)
+  | joinClean (s g : Nat) (actors : List Nat)
   /-- the exiter's regions -/
   | mark
   | demTake
@@ -51,7 +51,7 @@ def fstep (a : Nat) (fs : FState) : FOp → FState
   | .api op => if op = .exit a then fs else { fs with st := (step fs.st op).1 }
   | .monRecheck g b => { fs with st := monitorRecheck fs.st g b }
   | .monScopeRecheck s b => { fs with st := monitorScopeRecheck fs.st s b }
-  | .joinClean as => { fs with st := joinCleanup fs.st as }
+  | .joinClean s g as => { fs with st := joinCleanup fs.st s g as }
   | .mark =>
     match fs.ph with
     | .live => ⟨markDead fs.st a, .marked⟩
